@@ -31,6 +31,8 @@
 //! assert_eq!(decrypted, message.as_bytes());
 //! ```
 
+use zeroize::Zeroize;
+
 use crate::classic::crypto_secretbox_impl::*;
 use crate::constants::{
     CRYPTO_SECRETBOX_KEYBYTES, CRYPTO_SECRETBOX_MACBYTES, CRYPTO_SECRETBOX_NONCEBYTES,
@@ -83,7 +85,12 @@ pub fn crypto_secretbox_open_detached(
 ) -> Result<(), Error> {
     let c_len = ciphertext.len();
     message[..c_len].copy_from_slice(ciphertext);
-    crypto_secretbox_open_detached_inplace(message, mac, nonce, key)
+    let res = crypto_secretbox_open_detached_inplace(message, mac, nonce, key);
+    if res.is_err() {
+        // do not leave a copy of the rejected ciphertext in the caller's buffer
+        message.zeroize();
+    }
+    res
 }
 
 /// Encrypts `message` with `nonce` and `key`.
